@@ -84,6 +84,17 @@ def cases(tier: str, seed: int) -> List[Dict[str, Any]]:
                     if not train and bi > 0:
                         continue
                     out.append({"kind": "simple", "cls": cls, "opt": opt, "train": train, "batch": batch, "seed": seed})
+    # object-history / constructor-form coordinates on every option set with at most one deviation: the module
+    # is deep-copied / pickled / rebuilt from its state_dict / converted float32 -> float64 after construction /
+    # built with positional constructor arguments (documented order) / given its shape as a bare int
+    for cls, dom in SIMPLE.items():
+        for opt in _prod(dom):
+            if sum(opt[k] != v[0] for k, v in dom.items()) > 1:
+                continue
+            for post in ("deepcopy", "pickle", "state_dict", "double", "positional", "shape_int"):
+                if post == "shape_int" and (cls not in ("LayerNorm", "RMSNorm") or opt["nd"] != 1):
+                    continue
+                out.append({"kind": "simple", "cls": cls, "opt": opt, "train": True, "batch": [2, 3], "seed": seed, "post": post})
     for cls, kw in REJECT:
         out.append({"kind": "reject", "cls": cls, "kw": kw})
     for cls in ["Linear", "LinearReadout", "Conv1d", "LayerNorm", "RMSNorm", "Embedding", "MLP", "MHSA",
@@ -159,6 +170,47 @@ def _build_simple(cls: str, o: Dict[str, Any]) -> Any:
     raise AssertionError(cls)
 
 
+class _Pos:
+    def __init__(self, m: Any) -> None:
+        self.m = m
+
+    def load_state_dict_from(self, src: Any) -> Any:
+        self.m.load_state_dict(src.state_dict())
+        return self.m
+
+
+def _build_positional(cls: str, o: Dict[str, Any], shape_int: bool) -> Any:
+    """the same module built with POSITIONAL constructor arguments in the documented order (pinned tree)"""
+    import torch
+    import unit_scaling as uu
+
+    dt = torch.float64
+    if cls == "GELU":
+        return _Pos(uu.GELU(o["mult"], o["constraint"], o["approximate"]))
+    if cls == "SiLU":
+        return _Pos(uu.SiLU(o["mult"], o["constraint"], False))
+    if cls == "Softmax":
+        return _Pos(uu.Softmax(o["dim"], o["mult"], o["constraint"]))
+    if cls == "Dropout":
+        return _Pos(uu.Dropout(o["p"], False))
+    if cls in ("Linear", "LinearReadout"):
+        return _Pos(getattr(uu, cls)(o["fin"], o["fout"], o["bias"], None, dt, o["constraint"]))
+    if cls == "Conv1d":
+        return _Pos(uu.Conv1d(o["cin"], o["cout"], o["k"], o["stride"], o["padding"], o["dilation"], o["groups"], o["bias"],
+                              o["padding_mode"], None, dt, o["constraint"]))
+    if cls == "LayerNorm":
+        ns: Any = o["n"] if shape_int else ([o["n"]] if o["nd"] == 1 else [2, o["n"]])
+        return _Pos(uu.LayerNorm(ns, o["eps"], o["elementwise_affine"], o["bias"], None, dt))
+    if cls == "RMSNorm":
+        ns = o["n"] if shape_int else ((o["n"],) if o["nd"] == 1 else (2, o["n"]))
+        return _Pos(uu.RMSNorm(ns, o["eps"], o["elementwise_affine"]).to(dt))
+    if cls == "Embedding":
+        return _Pos(uu.Embedding(o["V"], o["D"], o["padding_idx"], o["max_norm"], o["norm_type"], False, False, None, o["_freeze"], None, dt))
+    if cls == "CrossEntropyLoss":
+        return _Pos(uu.CrossEntropyLoss(o["mult"], None, None, o["ignore_index"], None, o["reduction"]))
+    raise AssertionError(cls)
+
+
 def _simple(case: Dict[str, Any]) -> Dict[str, Any]:
     import torch
     from mc.core import derive_seed, exception_violation
@@ -170,8 +222,27 @@ def _simple(case: Dict[str, Any]) -> Dict[str, Any]:
     ident = f"{cls}|{'train' if train else 'eval'}|dev={'+'.join(dev) or 'none'}"
     viol: List[Dict[str, str]] = []
     torch.manual_seed(derive_seed(case["seed"], "C08", cls) % (2**31))
+    post = case.get("post")
+    if post:
+        ident += f"|{post}"
     try:
         m, twin, opname, ocfg = _build_simple(cls, o)
+        if post == "deepcopy":
+            import copy
+
+            m = copy.deepcopy(copy.deepcopy(m))
+        elif post == "pickle":
+            import pickle
+
+            m = pickle.loads(pickle.dumps(m))
+        elif post == "state_dict":
+            m2, _, _, _ = _build_simple(cls, o)
+            m2.load_state_dict(m.state_dict())
+            m = m2
+        elif post == "double":
+            m = m.float().double()
+        elif post in ("positional", "shape_int"):
+            m = _build_positional(cls, o, post == "shape_int").load_state_dict_from(m)
     except Exception as e:  # noqa
         try:
             # the torch twin decides validity of the option set
